@@ -22,12 +22,12 @@ CLAIMED = {
         ref="4/C02"),
     "C03": dict(
         technique="stateful property-based testing (Hypothesis RuleBasedStateMachine over deepen/expand histories) plus the same structural invariant after every round of generated runs of every algorithm",
-        text="Exploration: a rule-based state machine generates interleavings of deepen() and make_children(leaf, newlayer=callers' convention) on every partition class; after every step an invariant compares the per-depth node lists with the tree reachable from the root (each cell once, right layer, parent/child links both ways, no child list aliasing a layer, depth bookkeeping, label arithmetic). The same invariant is evaluated on every partition created by generated algorithm runs (including every learner of POO/GPO) after every round.",
+        text="Exploration: a rule-based state machine generates interleavings of deepen() and make_children(leaf, newlayer=callers' convention) on every partition class; after every step an invariant compares the per-depth node lists with the tree reachable from the root (each cell once, right layer, parent/child links both ways, no child list aliasing a layer, depth bookkeeping, label arithmetic). The same invariant is evaluated on every partition created by generated algorithm runs (including every learner of POO/GPO) after every round, and on enumerated deep histories (chains of 10..520 expansions along one path followed by deepen/expand).",
         note="Only leaves are expanded directly, with the documented newlayer convention (the property's quantifier). Histories are capped at 3000 cells. A crash of the code under test aborts the case (C01's business).",
         ref="4/C03"),
     "C17": dict(
         technique="property-based testing (Hypothesis, target()-guided) over structured generators of points of each objective's box; bound/finite/purity oracle; enumerated maximiser and wrong-dimension sub-checks",
-        text="Exploration: >1e5 generated points per quick run, concentrated by construction on the thin regions where a violation could hide (maximisers, Garland's cusps k*pi/60, DoubleSine's tmax+-2^-j, DifficultFunc's 0.5+-e^-m, log-scale neighbourhoods of the origin, +-8 ulp neighbours, box end points), f(x) <= fmax with zero tolerance wherever IEEE rounding monotonicity makes the bound exact, attainment at the documented maximisers, purity, ValueError on wrong-length points. A supremum over a continuum is attacked, not enclosed.",
+        text="Exploration: >1e5 generated points per quick run, concentrated by construction on the thin regions where a violation could hide (maximisers, Garland's cusps k*pi/60, DoubleSine's tmax+-2^-j, DifficultFunc's 0.5+-e^-m, log-scale neighbourhoods of the origin, +-8 ulp neighbours, box end points), f(x) <= fmax with zero tolerance wherever IEEE rounding monotonicity makes the bound exact, attainment at the documented maximisers, purity, history independence (a second instance that evaluated other points, other dimensions and lattice neighbours first must agree), ValueError on wrong-length points. A supremum over a continuum is attacked, not enclosed.",
         note="Ackley's bound uses a tolerance of 8 ulp(22.7); DoubleSine parameters restricted to the property's quantifier; perturbed variants are seeded through np.random.seed before construction.",
         ref="4/C17"),
     "C04": dict(
@@ -47,7 +47,7 @@ CLAIMED = {
         ref="4/C06"),
     "C07": dict(
         technique="property-based testing (Hypothesis) with a harness-kept ledger of (cell, point, reward) and per-learner / per-phase scores; the recommendation is judged against the ledger, with reward laws weighted towards negative, tied and constant values",
-        text="Exploration: for every generated run the harness records which cell produced every evaluated point and with what reward (and which learner / validation phase each reward belongs to, through recording learner subclasses); get_last_point() must return an evaluated candidate whose ledger value is maximal for the algorithm's documented criterion.",
+        text="Exploration: for every generated run the harness records which cell produced every evaluated point and with what reward (and which learner / validation phase each reward belongs to, through recording learner subclasses); get_last_point() must return an evaluated candidate whose ledger value is maximal for the algorithm's documented criterion - at the end of the run and, in a third of the cases, at generated rounds in between (every prefix of a run is a run). Reward laws include exact ties and near-ties (distinct values within 1e-9).",
         note="Queries that hit the open findings D11a/D11b (no candidate exists yet) are counted as aborted, not judged. GPO validation rounds are located with the reference schedule. Means to rel. 1e-9.",
         ref="4/C07"),
     "C08": dict(
@@ -62,7 +62,7 @@ CLAIMED = {
         ref="4/C09"),
     "C10": dict(
         technique="property-based testing (Hypothesis) with recording learner subclasses and a per-learner reward ledger, per-round routing/score oracle; enumerated stub-learner schedule over a rho_max grid",
-        text="Exploration: every round of every generated POO run is attributed to the learner whose pull ran; routing (exactly one learner, reward to the same learner once), learner list monotonicity, construction parameters on the published rho grid, and the score/count invariants V_reward == mean(ledger), Times == len(ledger) are checked after every round; get_last_point must ask one best-scored learner. A grid of rho_max values is enumerated with stub learners for thousands of rounds to reach the later doubling phases.",
+        text="Exploration: every round of every generated POO run is attributed to the learner whose pull ran; routing (exactly one learner, reward to the same learner once), learner list monotonicity, construction parameters on the published rho grid, and the score/count invariants V_reward == mean(ledger), Times == len(ledger) are checked after every round; get_last_point must ask one best-scored learner (also when queried between rounds, after which the following rounds are judged as before). A grid of rho_max values is enumerated with stub learners for thousands of rounds to reach the later doubling phases.",
         note="rho_max >= 0.84 (POO starts); tolerance 1e-9 relative to the largest |reward|.",
         ref="4/C10"),
     "C11": dict(
@@ -82,17 +82,17 @@ CLAIMED = {
         ref="4/C13"),
     "C14": dict(
         technique="differential property-based testing (Hypothesis): same case twice in one process; a RuleBasedStateMachine interleaving two instances vs. each alone; fresh-subprocess differential under different PYTHONHASHSEED / heap layouts and against the long-lived worker after a polluter instance; deep comparison of the user's domain object",
-        text="Exploration: identical seed + constructor arguments + reward law must give bit-identical point sequences and recommendation (in-process repeat, and across fresh processes with different hash seeds and shifted object ids); a Hypothesis state machine chooses interleavings of two independently constructed instances and each must behave as it does alone; the same case run inside a worker that has executed hundreds of other instances (and a polluter of the same class just before) must equal the fresh-process run, which exposes class-level / module-level state; the domain argument is compared with a deep copy taken before construction (values, element types, inner-list identity).",
+        text="Exploration: identical seed + constructor arguments + reward law must give bit-identical point sequences and recommendation (in-process repeat, and across fresh processes with different hash seeds and shifted object ids); a Hypothesis state machine chooses interleavings of two independently constructed instances - whole rounds and split rounds (pull_A ... calls on B ... receive_A), 60 % of the pairs being two instances of the same class - and each must behave as it does alone; the same case run inside a worker that has executed hundreds of other instances (and a polluter of the same class just before) must equal the fresh-process run, which exposes class-level / module-level state; the domain argument is compared with a deep copy taken before construction (values, element types, inner-list identity).",
         note="Interleavings use RNG-free algorithms on RNG-free partitions (the property's quantifier). A crash common to both runs is aborted. Subprocess differential: 96 cases per quick run (process start-up bound).",
         ref="4/C14"),
     "C15": dict(
         technique="differential property-based testing (Hypothesis): relabelled time arguments vs. 1..T, and a RuleBasedStateMachine inserting get_last_point() queries vs. the query-free run",
-        text="Exploration: every generated run is executed with labels 1..T and again with labels t0+i (t0 in {0,17,-3,1e6,2}) or arbitrary strictly increasing labels; point sequences and recommendation must coincide. A state machine inserts 1-5 consecutive recommendation queries at Hypothesis-chosen rounds for T-HOO, HCT, VHCT, Zooming and POO and compares with the query-free run. Point-dependent rewards propagate any drift.",
+        text="Exploration: every generated run is executed with labels 1..T and again with labels t0+i (t0 in {0,17,-3,1e6,2}) or arbitrary strictly increasing labels; point sequences and recommendation must coincide. A state machine inserts 1-5 consecutive recommendation queries at Hypothesis-chosen rounds for T-HOO, HCT, VHCT, Zooming and POO and compares with the query-free run; a further sub-check queries before (almost) every round, which reaches side effects that need a rare coincidence of counts. Point-dependent rewards propagate any drift.",
         note="StoSOO and StroquOOL read time by design and are excluded (the property's own list).",
         ref="4/C15"),
     "C16": dict(
         technique="metamorphic property-based testing (Hypothesis): base run vs. run on the affine image of the box fed with the same rewards and RNG outcomes; bit-exact comparison for power-of-two scalings and dyadic translations, 1e-9 tolerance class for arbitrary maps on coordinate-free algorithms",
-        text="Exploration: for every generated configuration and map x -> a x + t the image run must produce exactly the mapped points and recommendation. In the exact class (a = 2^k; dyadic translations of dyadic boxes on midpoint partitions) the comparison is bit for bit after verifying that the map is exactly invertible at each produced point; arbitrary maps are compared to 1e-9 of the box scale for the algorithms that never compare coordinates. DOO's default diameter function is checked under translations only (documented exception).",
+        text="Exploration: for every generated configuration and map x -> a x + t the image run must produce exactly the mapped points and recommendation. In the exact class (a = 2^k for k in -60..60; dyadic translations of dyadic boxes on midpoint partitions while every cell boundary stays representable) the comparison is bit for bit after verifying that the map is exactly invertible at each produced point; arbitrary maps are compared to 1e-9 of the box scale for the algorithms that never compare coordinates. DOO's default diameter function is checked under translations only (documented exception).",
         note="The image run receives the base run's rewards by index. Zooming and DOO-default are only checked in the exact class.",
         ref="4/C16"),
 }
